@@ -10,3 +10,15 @@ theories/Uuid.vos theories/Uuid.vok theories/Uuid.required_vos: theories/Uuid.v 
 theories/Semver.vo theories/Semver.glob theories/Semver.v.beautified theories/Semver.required_vo: theories/Semver.v theories/Prelude.vo
 theories/Semver.vio: theories/Semver.v theories/Prelude.vio
 theories/Semver.vos theories/Semver.vok theories/Semver.required_vos: theories/Semver.v theories/Prelude.vos
+theories/Types.vo theories/Types.glob theories/Types.v.beautified theories/Types.required_vo: theories/Types.v theories/Prelude.vo theories/Dec.vo
+theories/Types.vio: theories/Types.v theories/Prelude.vio theories/Dec.vio
+theories/Types.vos theories/Types.vok theories/Types.required_vos: theories/Types.v theories/Prelude.vos theories/Dec.vos
+theories/Contract.vo theories/Contract.glob theories/Contract.v.beautified theories/Contract.required_vo: theories/Contract.v theories/Prelude.vo theories/Dec.vo theories/Uuid.vo theories/Semver.vo theories/Types.vo
+theories/Contract.vio: theories/Contract.v theories/Prelude.vio theories/Dec.vio theories/Uuid.vio theories/Semver.vio theories/Types.vio
+theories/Contract.vos theories/Contract.vok theories/Contract.required_vos: theories/Contract.v theories/Prelude.vos theories/Dec.vos theories/Uuid.vos theories/Semver.vos theories/Types.vos
+theories/Runner.vo theories/Runner.glob theories/Runner.v.beautified theories/Runner.required_vo: theories/Runner.v theories/Prelude.vo theories/Dec.vo theories/Uuid.vo theories/Semver.vo theories/Types.vo theories/Contract.vo
+theories/Runner.vio: theories/Runner.v theories/Prelude.vio theories/Dec.vio theories/Uuid.vio theories/Semver.vio theories/Types.vio theories/Contract.vio
+theories/Runner.vos theories/Runner.vok theories/Runner.required_vos: theories/Runner.v theories/Prelude.vos theories/Dec.vos theories/Uuid.vos theories/Semver.vos theories/Types.vos theories/Contract.vos
+theories/Extract.vo theories/Extract.glob theories/Extract.v.beautified theories/Extract.required_vo: theories/Extract.v theories/Prelude.vo theories/Dec.vo theories/Uuid.vo theories/Semver.vo theories/Types.vo theories/Contract.vo theories/Runner.vo
+theories/Extract.vio: theories/Extract.v theories/Prelude.vio theories/Dec.vio theories/Uuid.vio theories/Semver.vio theories/Types.vio theories/Contract.vio theories/Runner.vio
+theories/Extract.vos theories/Extract.vok theories/Extract.required_vos: theories/Extract.v theories/Prelude.vos theories/Dec.vos theories/Uuid.vos theories/Semver.vos theories/Types.vos theories/Contract.vos theories/Runner.vos
